@@ -3,7 +3,7 @@
     Jar.v, Retry.v) is a transliteration of the Go code and is compared with it on every run (`wwh cookies`). *)
 From Coq Require Import NArith ZArith List Bool String Ascii.
 From WW Require Import Base.Bytes Gen.Params Model.CookieUrl Model.Cookie Model.Jar Model.Retry
-  Proofs.CookieP Proofs.JarP Proofs.CookieJarP Proofs.SsoProxyJarP.
+  Proofs.CookieP Proofs.JarP Proofs.CookieJarP Proofs.SsoProxyJarP Proofs.CookieLeftoverP.
 Import ListNotations.
 Open Scope Z_scope.
 
@@ -281,3 +281,33 @@ Example c14_validate_nonvacuous :
   validate_cookie (cfg "https://localhost"%string) = VReject /\
   validate_cookie (cfg "http://localhost.evil.com"%string) = VReject.
 Proof. vm_compute. repeat split; reflexivity. Qed.
+
+(** (3') "without a Domain in standalone mode", whatever else the configuration carries: an instance that is not an SSO server
+    answers every request exactly as it would with empty sso.domain / sso.session-cookie-name - status and every Set-Cookie
+    header (name, value, Domain, Path, SameSite, Secure, Max-Age). Settings of a mode the instance is not in are dead.
+    (Tied to the real code by the cookie histories under standalone configurations with left-over sso.* settings.) *)
+Theorem c14_standalone_ignores_sso_settings : forall cfg d n r, cf_sso_server cfg = false ->
+  handle (with_sso_leftover cfg d n) r = handle cfg r.
+Proof. exact standalone_handle_ignores_sso_leftover. Qed.
+Print Assumptions c14_standalone_ignores_sso_settings.
+
+Theorem c14_standalone_emit_ignores_sso_settings : forall cfg d n mp s v m, cf_sso_server cfg = false ->
+  site_emit (with_sso_leftover cfg d n) mp s v m = site_emit cfg mp s v m.
+Proof. exact standalone_emit_ignores_sso_leftover. Qed.
+Print Assumptions c14_standalone_emit_ignores_sso_settings.
+
+Theorem c14_standalone_names_ignore_sso_settings : forall cfg d n k, cf_sso_server cfg = false ->
+  cookie_name (with_sso_leftover cfg d n) k = cookie_name cfg k.
+Proof. exact standalone_names_ignore_sso_leftover. Qed.
+Print Assumptions c14_standalone_names_ignore_sso_settings.
+
+(** Non-vacuity: with sso.domain = example.com left in the configuration, the session cookie of a standalone instance has no
+    Domain; the same settings on an SSO server put Domain=example.com on it. *)
+Example c14_leftover_nonvacuous :
+  let mk := fun sso => {| cf_secure := true; cf_samesite := b "None"; cf_prefix := b "io.nais.wonderwall";
+                cf_ingresses := [b "https://app.example.com"]; cf_sso_server := sso;
+                cf_sso_domain := []; cf_sso_name := []; cf_legacy := false; cf_rl_enabled := false; cf_rl_logins := 5;
+                cf_rl_window := 5000000000; cf_seg_prefix := true; cf_rl_ceil := true |} in
+  c_domain (site_emit (with_sso_leftover (mk false) (b "example.com") (b "sso.session.name")) [] S_callback_set_session VOpaque 3600) = [] /\
+  c_domain (site_emit (with_sso_leftover (mk true) (b "example.com") (b "sso.session.name")) [] S_callback_set_session VOpaque 3600) = b "example.com".
+Proof. vm_compute. split; reflexivity. Qed.
